@@ -285,7 +285,8 @@ func ParseWithSpecialTableName(dest interface{}, cacheStore *sync.Map, namer Nam
 	}
 
 	for _, field := range schema.Fields {
-		if field.DataType != "" && field.HasDefaultValue && field.DefaultValueInterface == nil {
+		// a field shadowed by another one with the same column does not own that column
+		if field.DataType != "" && field.HasDefaultValue && field.DefaultValueInterface == nil && (field.DBName == "" || schema.FieldsByDBName[field.DBName] == field) {
 			schema.FieldsWithDefaultDBValue = append(schema.FieldsWithDefaultDBValue, field)
 		}
 	}
